@@ -328,7 +328,7 @@ func mutexLock(i *interpreter, p *value, try bool) value {
 		panic(runtimeError("invalid memory address or nil pointer dereference"))
 	}
 	m := i.mutex(p)
-	i.yield("mutex lock")
+	i.yield("mutex lock", m)
 	if m.locked {
 		if try {
 			return false
@@ -350,7 +350,11 @@ func mutexUnlock(i *interpreter, p *value) {
 	}
 	i.release(&m.vc)
 	m.locked = false
-	i.yield("mutex unlock")
+	if i.threaded() {
+		i.wake([]interface{}{m})
+	}
+	// no scheduling choice after a release: switching here is equivalent to switching before
+	// this thread's next acquiring operation (everything in between is thread-local or a race)
 }
 
 // timeSub summarises time.Time.Sub for symbolic instants: d = dsec*1e9 + dnsec, under the
@@ -553,7 +557,7 @@ func init() {
 	externals["(*sync.Once).Do"] = func(fr *frame, a []value) value {
 		o := a[0].(*value)
 		m := fr.i.mutex(o)
-		fr.i.yield("once")
+		fr.i.yield("once", m)
 		if !m.locked { // reuse the mutex record's flag as the done flag
 			m.locked = true
 			call(fr.i, fr, 0, a[1], nil)
